@@ -618,6 +618,13 @@ func ruleJoin(r *Report) {
 	bad := ""
 	for _, c := range append(append([]Site{}, tableCloses...), walCloses...) {
 		lc := liftSites([]Site{c}, cl)
+		if lc == nil {
+			// released in a deferred function literal: it runs when Close returns; its registration stands in for it
+			// (conservative: a join behind the registration is reported although the release comes later still)
+			if ds, ok := deferSiteOf(c.Fn); ok && ds.Fn == cl {
+				lc = []Site{ds}
+			}
+		}
 		for _, d := range doneFields {
 			for _, rv := range recvs[d] {
 				lr := liftSites([]Site{rv}, cl)
@@ -1065,6 +1072,29 @@ func ruleNoAcquireAfterClose(r *Report) {
 				}
 			}
 		}
+		// … or asks a helper of the reader that makes this test (ensureOpen() error, isClosed() bool)
+		for _, b := range liveBlocks(fn) {
+			inner, call, _, hF, _, hFE, ok := condThroughHelper(b)
+			if !ok {
+				continue
+			}
+			t, f, base, isF := loadOfField(inner)
+			if !isF || !flags[f] || t != "sstables.SSTableReader" {
+				continue
+			}
+			// the helper looks at its own receiver, and is called on ours
+			callee := genericBody(call.Call.StaticCallee())
+			if po := paramOrigin(base); po == nil || len(callee.Params) == 0 || po != callee.Params[0] {
+				continue
+			}
+			if len(call.Call.Args) == 0 || len(fn.Params) == 0 || paramOrigin(call.Call.Args[0]) != fn.Params[0] {
+				continue
+			}
+			tested = true
+			if hFE {
+				removed[Edge{b, hF}] = true
+			}
+		}
 		bad := !tested
 		for _, s := range regs {
 			if tested && siteReachable(s, removed) {
@@ -1390,4 +1420,109 @@ func acquiresHandle(p *Prog, c *ssa.Call) bool {
 		})
 	}
 	return found
+}
+
+// R-close-releases-all (C19): DB.Close gives back two kinds of handles — the log and the table readers. The table readers
+// are not a field of a closable type (the manager hands out the current stack), so owner-fields does not see them. Once
+// one of the releases has run, every way out of Close must run the other one too: the database is marked closed and a
+// second Close is refused, so whatever is skipped stays for the life of the process.
+func ruleCloseReleasesAll(r *Report) {
+	const rule = "close-releases-all"
+	r.Rule(rule, 1, "in simpledb.DB.Close the release of the WAL and the release of the table readers are all-or-nothing: no return is reachable after one of them that has not passed the other (a failing wal.Close must not skip the tables)")
+	fn := r.NeedFunc(rule, "simpledb.DB.Close")
+	if fn == nil {
+		return
+	}
+	key := rule + "/simpledb.DB.Close"
+	var rel []Site
+	var names []string
+	var deferred []bool
+	collect := func(g *ssa.Function, at *Site) {
+		eachInstr(g, func(s Site) {
+			c, ok := s.Instr.(ssa.CallInstruction)
+			if !ok {
+				return
+			}
+			cc := c.Common()
+			var recv ssa.Value
+			name := ""
+			if cc.IsInvoke() {
+				recv, name = cc.Value, cc.Method.Name()
+			} else if sc := cc.StaticCallee(); sc != nil && sc.Signature.Recv() != nil && len(cc.Args) > 0 {
+				recv, name = cc.Args[0], sc.Name()
+			}
+			if name != "Close" || recv == nil {
+				return
+			}
+			site, isDef := s, false
+			if _, d := s.Instr.(*ssa.Defer); d {
+				isDef = true
+			}
+			if at != nil {
+				site, isDef = *at, true
+			}
+			if _, f, _, isF := loadOfField(recv); isF && f == "wal" {
+				rel, names, deferred = append(rel, site), append(names, "the WAL"), append(deferred, isDef)
+				return
+			}
+			if valueDependsOn(recv, func(x ssa.Value) bool {
+				cl, isC := x.(*ssa.Call)
+				return isC && cl.Call.StaticCallee() != nil && strings.HasSuffix(FuncKey(cl.Call.StaticCallee()), "SSTableManager.currentSSTable")
+			}) {
+				rel, names, deferred = append(rel, site), append(names, "the table readers"), append(deferred, isDef)
+			}
+		})
+	}
+	collect(fn, nil)
+	// releases inside a deferred function literal take effect at every return after the defer statement
+	eachInstr(fn, func(s Site) {
+		d, ok := s.Instr.(*ssa.Defer)
+		if !ok {
+			return
+		}
+		if mc, isMC := d.Call.Value.(*ssa.MakeClosure); isMC {
+			if g, isF := mc.Fn.(*ssa.Function); isF {
+				ss := s
+				collect(g, &ss)
+			}
+		}
+	})
+	if len(rel) < 2 {
+		r.Bad(rule, key, fn.Pos(), "DB.Close does not release both the WAL and the table readers")
+		return
+	}
+	bad := ""
+	for i, a := range rel {
+		for j, b := range rel {
+			if i == j || a.Block == b.Block || names[i] == names[j] {
+				continue
+			}
+			if b.Block.Dominates(a.Block) {
+				continue // b already ran (or is registered to run at every return)
+			}
+			if deferred[j] {
+				if !deferred[i] {
+					bad = fmt.Sprintf("%s is released at %s before the deferred release of %s is registered", names[i], r.P.Pos(a.Pos()), names[j])
+				}
+				continue
+			}
+			removed := map[Edge]bool{}
+			for _, su := range b.Block.Succs {
+				removed[Edge{b.Block, su}] = true
+			}
+			for _, su := range a.Block.Succs {
+				reach := reachFrom(su, removed)
+				for _, rs := range returnsOf(fn) {
+					if reach[rs.Block] && rs.Block != b.Block {
+						bad = fmt.Sprintf("after releasing %s (%s) the return at %s is reachable without releasing %s", names[i], r.P.Pos(a.Pos()), r.P.Pos(rs.Pos()), names[j])
+					}
+				}
+			}
+		}
+	}
+	if bad != "" {
+		r.Bad(rule, key, rel[0].Pos(), bad+": the database is closed for good (a second Close is refused) and the mappings / descriptors stay — e.g. when the last rotation failed and left the appender with a closed writer, wal.Close always fails")
+	} else {
+		r.OK(rule, key, rel[0].Pos(), "both releases run on every way out")
+	}
 }
